@@ -51,6 +51,16 @@ def engines():
                 for n in ["main", "props_core", "props_meta", "props_hist", "props_rtti", "props_gen"]],
         "link": SAN + ["-lrapidcheck"],
     }
+    e2_pols = ["dbg", "rel", "dbg_ind", "rel_ind", "rel_map"]
+    e2_deps = ["e2/*.hpp", "e1/spec.hpp", "common/*.hpp"]
+    e["e2"] = {
+        "tus": [{"src": "e2/pol.cpp", "name": "e2_pol_" + p_,
+                 "flags": SAN + ["-DPOL_" + p_], "deps": e2_deps}
+                for p_ in e2_pols] +
+               [{"src": "e2/main.cpp", "name": "e2_main", "flags": SAN,
+                 "deps": e2_deps}],
+        "link": SAN + ["-lrapidcheck"],
+    }
     for name in ["e4", "e5", "e6"]:
         e[name] = {
             "tus": [{"src": name + "/main.cpp", "name": name + "_main",
@@ -201,7 +211,7 @@ prop("C01", engine="e1", rule=(
     "and operator() and compared with the brute-force reference model; "
     "non-trivial = some called tuple has >= 2 applicable definitions; "
     "distinct = canonical hash of (registry, configuration)"),
-    quick=dict(cases=6000, size=60), thorough=dict(cases=200000, size=100))
+    quick=dict(also=[dict(engine="e2", workers=4, cases=600)], cases=6000, size=60), thorough=dict(also=[dict(engine="e2", workers=4, cases=20000)], cases=200000, size=100))
 prop("C03", engine="e1", rule=(
     "random registries; after update the next pointer written for every "
     "definition is compared with the model's select() over strictly more "
@@ -225,7 +235,7 @@ prop("C02", engine="e1", rule=(
     "for one case in eight the handler returns in a forked child which must "
     "die by abort; non-trivial = an erroring method with a non-virtual "
     "parameter or arity >= 2"),
-    quick=dict(cases=4000, size=60), thorough=dict(cases=100000, size=100))
+    quick=dict(also=[dict(engine="e2", workers=4, cases=600)], cases=4000, size=60), thorough=dict(also=[dict(engine="e2", workers=4, cases=20000)], cases=100000, size=100))
 prop("C05", engine="e4", rule=(
     "histories of 1..6 successive publish_vptrs calls (what update does) on "
     "growing and shrinking sets of 0..64 ids (thorough: 0..400) from "
@@ -272,6 +282,25 @@ prop("C08", engine="e1", rule=(
     "injectivity and bounds, report; non-trivial = the presentation omits "
     "an indirect base of a class with >= 2 direct bases"),
     quick=dict(cases=10000, size=60), thorough=dict(cases=150000, size=100))
+prop("C09", engine="e2", rule=(
+    "typed universe (13 real classes: chains, second base at non-zero "
+    "offset, virtual diamond) under 5 policies (stock debug and release "
+    "rebound, checked and fast hash with indirect v-table pointers, "
+    "unhashed map), registration style and order, live definitions per "
+    "method drawn at random; every legal tuple of every method with "
+    "virtual_ptr / virtual_shared_ptr parameters is called with pointers "
+    "built through a rotating menu of routes (from base reference, exact "
+    "type then converting copy from lvalue / const lvalue / rvalue, final, "
+    "final_virtual_ptr, same-type copy and move; shared_ptr const lvalue / "
+    "lvalue / rvalue, make_virtual_shared, final) and must run the "
+    "definition the model selects for the pointee's class; get, * and -> "
+    "(and shared ownership) give back the object; half the cases continue "
+    "with other definitions, a second update, pre-update pointers (indirect "
+    "policies) and fresh ones; non-trivial = a pointer whose static class "
+    "differs from the pointee's, or a pre-update pointer used after update"),
+    technique="property-based testing (rapidcheck) on real C++ types with "
+              "a reference-model oracle and route metamorphism",
+    quick=dict(cases=1500, size=60), thorough=dict(cases=40000, size=100))
 prop("C10", engine="e1", rule=(
     "one abstract registry instantiated under 3..4 RTTI flavours (identity "
     "custom ids with checked hash / map / no hash, many-to-one projection "
@@ -324,7 +353,7 @@ prop("C15", engine="e1", rule=(
     "exactly once, no body runs); checked configurations only; non-trivial "
     "= left out as method/definition parameter, or dynamic at position >= 2 "
     "or through a virtual_ptr"),
-    quick=dict(cases=4000, size=60), thorough=dict(cases=100000, size=100))
+    quick=dict(also=[dict(engine="e2", workers=4, cases=800)], cases=4000, size=60), thorough=dict(also=[dict(engine="e2", workers=4, cases=20000)], cases=100000, size=100))
 prop("C18", engine="e5", variants=["list", "catalogs"], rule=(
     "(a) static_list<Node> directly: pool of 1..6 zero-initialised nodes, "
     "sequences of push_back (node not in list), remove (node in list: "
@@ -417,7 +446,13 @@ def replay_file(exe, path, fork=True):
 def engine_for_file(path):
     with open(path) as f:
         j = json.load(f)
-    return PROPS[j["property"]]["engine"], j
+    return j.get("engine") or PROPS[j["property"]]["engine"], j
+
+
+def exe_for_file(path, default_engine):
+    with open(path) as f:
+        j = json.load(f)
+    return build(j.get("engine") or default_engine)
 
 
 def check(pid, tier, seed):
@@ -441,7 +476,7 @@ def check(pid, tier, seed):
     for path in sorted(glob.glob(os.path.join(ROOT, "replays", pid,
                                               "*.json"))):
         replayed += 1
-        failed, msg = replay_file(exe, path)
+        failed, msg = replay_file(exe_for_file(path, cfg["engine"]), path)
         f = witness_of.get(path)
         if f is not None and f.get("status") == "open":
             if failed:
@@ -452,21 +487,39 @@ def check(pid, tier, seed):
             violations.append((path, msg))
 
     # 2. generated search
-    nworkers = tcfg.get("workers", NCPU)
-    variants = cfg.get("variants") or [cfg.get("variant", "")]
+    groups = [dict(engine=cfg["engine"], exe=exe,
+                   variants=cfg.get("variants") or [cfg.get("variant", "")],
+                   workers=tcfg.get("workers", NCPU), cases=tcfg["cases"],
+                   size=tcfg["size"], env=tcfg.get("env", {}))]
+    for g in tcfg.get("also", []):
+        groups.append(dict(engine=g["engine"], exe=build(g["engine"]),
+                           variants=g.get("variants", [""]),
+                           workers=g.get("workers", 4), cases=g["cases"],
+                           size=g.get("size", tcfg["size"]),
+                           env=g.get("env", {})))
+    if len(groups) > 1:
+        # share the cores
+        groups[0]["workers"] = max(
+            2, groups[0]["workers"] - sum(g["workers"] for g in groups[1:]))
     jobs = []
-    for w in range(nworkers):
-        out = os.path.join(scratch, "w%d.json" % w)
-        hashes = os.path.join(scratch, "w%d.hashes" % w)
-        wargs = ["--prop", pid, "--out", out, "--hashes", hashes,
-                 "--max-size", str(tcfg["size"])]
-        variant = variants[w % len(variants)]
-        if variant:
-            wargs += ["--variant", variant]
-        wseed = splitmix(seed, pid, tier, w)
-        env = worker_env(wseed, tcfg["cases"], tcfg["size"])
-        env.update(tcfg.get("env", {}))
-        jobs.append((exe, wargs, env, os.path.join(scratch, "w%d.log" % w)))
+    job_engine = []
+    for g in groups:
+        for k in range(g["workers"]):
+            w = len(jobs)
+            out = os.path.join(scratch, "w%d.json" % w)
+            hashes = os.path.join(scratch, "w%d.hashes" % w)
+            wargs = ["--prop", pid, "--out", out, "--hashes", hashes,
+                     "--max-size", str(g["size"])]
+            variant = g["variants"][k % len(g["variants"])]
+            if variant:
+                wargs += ["--variant", variant]
+            wseed = splitmix(seed, pid, tier, g["engine"], k)
+            env = worker_env(wseed, g["cases"], g["size"])
+            env.update(g["env"])
+            jobs.append((g["exe"], wargs, env,
+                         os.path.join(scratch, "w%d.log" % w)))
+            job_engine.append(g["engine"])
+    nworkers = len(jobs)
     # extra jobs (bounded exhaustive enumerations): same output format
     nextra = 0
     for extra in tcfg.get("extra", []):
@@ -500,7 +553,10 @@ def check(pid, tier, seed):
         for k, v in r.get("excluded", {}).items():
             excluded[k] = excluded.get(k, 0) + v
         samples += r.get("samples", [])[:1]
-        failures += r.get("failures", [])
+        for fl in r.get("failures", []):
+            fl["engine"] = job_engine[w] if w < len(job_engine) \
+                else cfg["engine"]
+            failures.append(fl)
         hp = os.path.join(scratch, "w%d.hashes" % w)
         if os.path.exists(hp):
             a = array.array("Q")
@@ -531,8 +587,11 @@ def check(pid, tier, seed):
         if os.path.exists(trace) and os.path.getsize(trace) > 0:
             with open(trace) as f:
                 case = json.load(f)
-            failures.append({"property": pid,
-                             "variant": cfg.get("variant", ""),
+            variant = ""
+            if "--variant" in wargs:
+                variant = wargs[wargs.index("--variant") + 1]
+            failures.append({"property": pid, "variant": variant,
+                             "engine": job_engine[w],
                              "case": case, "message": "crash", "crash": True})
         else:
             failures.append({"property": pid, "case": None,
@@ -549,13 +608,14 @@ def check(pid, tier, seed):
         tmp = os.path.join(scratch, "fail.json")
         with open(tmp, "w") as f:
             json.dump(fl, f)
+        fexe = build(fl.get("engine") or cfg["engine"])
         if fl.get("crash"):
-            subprocess.run([exe, "--shrink", tmp, "--out", tmp],
+            subprocess.run([fexe, "--shrink", tmp, "--out", tmp],
                            env=worker_env(1, 1, 1),
                            stdout=subprocess.DEVNULL)
             with open(tmp) as f:
                 fl = json.load(f)
-        confirmed = all(replay_file(exe, tmp)[0] for _ in range(3))
+        confirmed = all(replay_file(fexe, tmp)[0] for _ in range(3))
         if not confirmed:
             unconfirmed += 1
             continue
@@ -586,7 +646,9 @@ def check(pid, tier, seed):
             "replayed_regressions": replayed,
             "unconfirmed_failures": unconfirmed,
             "workers": nworkers,
-            "cases_per_worker": tcfg["cases"],
+            "job_groups": [dict(engine=g["engine"], workers=g["workers"],
+                                cases_per_worker=g["cases"],
+                                variants=g["variants"]) for g in groups],
             "exhaustive": False,
             "exhaustive_parts": exhaustive_parts,
         },
